@@ -382,6 +382,10 @@ def int_binop(E, op, a, b, st, sink):
             return
         if isinstance(a, int) and not isinstance(b, int):
             a, b, x, y = b, a, y, x
+        if isinstance(b, int) and int(b) == 1 and E.options.get('bit_arith') and _visibly_bit(x):
+            # opt-in: bit op with the constant 1 on a value that is visibly 0 or 1: the result stays visibly a bit
+            yield st, mk_int({ast.BitAnd: x, ast.BitOr: z3.IntVal(1), ast.BitXor: z3.If(x == 1, 0, 1)}[type(op)])
+            return
         if isinstance(b, int):
             m = int(b)
             if m < 0:
@@ -405,6 +409,41 @@ def int_binop(E, op, a, b, st, sink):
             else:
                 yield st, mk_int(x + m - 2 * andv)
             return
+        if E.options.get('bit_arith'):
+            # opt-in: one operand is provably a single bit (0 or 1): exact arithmetic forms, valid for every python int x
+            #   x & b == (x % 2 if b else 0);   x | b == (x - x % 2 + 1 if b else x);   x ^ b == (x + 1 - 2 * (x % 2) if b else x)
+            xs, ys = _visibly_bit(x), _visibly_bit(y)
+            # (when exactly one operand is visibly a bit the single-bit form below needs no solver call at all)
+            xb = xs or (not ys and E.implied(st, z3.And(x >= 0, x <= 1)))
+            yb = ys or (not xs and E.implied(st, z3.And(y >= 0, y <= 1)))
+            if xb and yb:
+                # both are bits: the result is visibly a bit again
+                r = {ast.BitAnd: z3.If(z3.And(x == 1, y == 1), 1, 0), ast.BitOr: z3.If(z3.Or(x == 1, y == 1), 1, 0),
+                     ast.BitXor: z3.If(x == y, 0, 1)}[type(op)]
+                yield st, mk_int(r)
+                return
+            for u, v, vb in ((x, y, yb), (y, x, xb)):
+                if vb:
+                    r = {ast.BitAnd: z3.If(v == 1, u % 2, 0), ast.BitOr: z3.If(v == 1, u - u % 2 + 1, u),
+                         ast.BitXor: z3.If(v == 1, u + 1 - 2 * (u % 2), u)}[type(op)]
+                    yield st, mk_int(r)
+                    return
+        # one operand is visibly a power of two 2**n or a low mask 2**n - 1 (from `1 << n`, `2 ** n`, `(1 << n) - 1`): exact
+        # arithmetic forms, valid for every python int x (infinite two's complement) and n >= 0:
+        #   x & (2**n - 1) == x mod 2**n;    x | 2**n == x + 2**n if bit n of x is clear else x;   x & 2**n == that bit * 2**n
+        if E.bv_width is None:
+            for u, v in ((x, y), (y, x)):
+                p = _visibly_pow2(v)
+                if p is not None and isinstance(op, ast.BitOr):
+                    yield st, mk_int(z3.If((u / p) % 2 == 0, u + p, u))
+                    return
+                if p is not None and isinstance(op, ast.BitAnd):
+                    yield st, mk_int(((u / p) % 2) * p)
+                    return
+                p = _visibly_pow2(z3.simplify(v + 1))
+                if p is not None and isinstance(op, ast.BitAnd):
+                    yield st, mk_int(u % p)
+                    return
         # both symbolic: bit-vector mode with a "no bit is lost" side obligation
         W = E.bv_width
         if W is None and E.options.get('bitops') == 'uf':
@@ -427,6 +466,19 @@ def int_binop(E, op, a, b, st, sink):
             yield st, mk_int(z3.BV2Int(r))
     else:
         raise Unsupported('int op ' + type(op).__name__)
+
+
+def _visibly_pow2(t):
+    """the term itself when it is syntactically pow2(n) (possibly as 1*pow2(n)); else None.  pow2(n) >= 1 is a fact of
+    every application, and it denotes 2**n for n >= 0 (the only way the engine builds it)"""
+    t = z3.simplify(t)
+    if z3.is_app(t) and t.decl().kind() == z3.Z3_OP_UNINTERPRETED and t.decl().name() == 'pow2':
+        return t
+    if z3.is_app(t) and t.decl().kind() == z3.Z3_OP_MUL and t.num_args() == 2:
+        a, b = t.arg(0), t.arg(1)
+        if z3.is_int_value(a) and a.as_long() == 1:
+            return _visibly_pow2(b)
+    return None
 
 
 def _small_shift_cases(E, st, y):
@@ -476,6 +528,17 @@ def bitop_value(E, st, opt, x, y):
     return t
 
 
+def _visibly_bit(t):
+    """t is 0 or 1 by its shape (no solver call): a numeral 0/1, `e mod 2`, or an if-then-else of such"""
+    if z3.is_int_value(t):
+        return t.as_long() in (0, 1)
+    if z3.is_app(t) and t.decl().kind() == z3.Z3_OP_MOD and z3.is_int_value(t.arg(1)) and t.arg(1).as_long() == 2:
+        return True
+    if z3.is_app(t) and t.decl().kind() == z3.Z3_OP_ITE:
+        return _visibly_bit(t.arg(1)) and _visibly_bit(t.arg(2))
+    return False
+
+
 def _and_const(x, m):
     """x & m for a non-negative constant mask m, exact on all integers (two's complement)"""
     if m == 0:
@@ -513,7 +576,8 @@ def byte_int(E, st, bv):
     bv = z3.simplify(bv)
     if z3.is_bv_value(bv):
         return z3.IntVal(bv.as_long())
-    if z3.is_app(bv) and bv.decl().kind() == z3.Z3_OP_INT2BV and E.implied(st, z3.And(bv.arg(0) >= 0, bv.arg(0) <= 255)):
+    if z3.is_app(bv) and bv.decl().kind() == z3.Z3_OP_INT2BV and (
+            bv.arg(0).get_id() in E.__dict__.get('_ranged_bytes', ()) or E.implied(st, z3.And(bv.arg(0) >= 0, bv.arg(0) <= 255))):
         return bv.arg(0)
     memo = E.__dict__.setdefault('_byte_ints', {})
     key = bv.get_id()
@@ -795,7 +859,12 @@ def store_subscript(E, base, idx, v, st, sink):
                 lo, hi = z3.simplify(lo), z3.simplify(hi)
                 if isinstance(v, Ref):
                     v = st.heap[v.oid].items
-                h.items = mk_bytes(z3.Concat(z3.SubSeq(zs, 0, lo), zbytes(v), z3.SubSeq(zs, hi, n - hi)))
+                parts = [z3.SubSeq(zs, 0, lo), zbytes(v), z3.SubSeq(zs, hi, n - hi)]
+                if idx.stop is None:
+                    parts.pop()                 # b[lo:] = v : nothing of the old data follows
+                if idx.start is None:
+                    parts.pop(0)                # b[:hi] = v : nothing precedes
+                h.items = mk_bytes(parts[0] if len(parts) == 1 else z3.Concat(*parts))
                 st.writes.append((base.oid, '<data>'))
                 return [st]
             i = zint(idx)
